@@ -380,6 +380,19 @@ func checkPalette(c PalCase) error {
 			return harness.Violatef("c09/suggested-palette", "suggested palette entry %d = %v decodes as %v (stream % x)", i, c.Palette[i], got[i], b)
 		}
 	}
+	// ... also when the caller passes an option that changes nothing (an entry set to its own colour)
+	rec2 := &ops.Recorder{}
+	k := int(b[len(b)-1]) % 64
+	if err := decode.Decode(rec2, append([]byte{}, b...), decode.WithColorAt(k, c.Palette[k])); err != nil {
+		return harness.Violatef("c09/decode-error", "decoder rejects the metadata written by Reset when given an option: %v", err)
+	}
+	if got2 := rec2.Ops[0].Palette(); got2 != got {
+		for i := range got2 {
+			if got2[i] != got[i] {
+				return harness.Violatef("c09/suggested-palette", "decoded with an option that sets entry %d to the colour it has, suggested palette entry %d = %v decodes as %v", k, i, c.Palette[i], got2[i])
+			}
+		}
+	}
 	if p := spec.Parse(b); !p.OK || p.Palette != [64]color.RGBA(c.Palette) {
 		return harness.Violatef("c09/suggested-palette", "the reference parser reads a different palette out of % x", b)
 	}
